@@ -41,8 +41,9 @@ ThAllowed(st, ev) ==
     [] OTHER -> FALSE
 
 \* The library's own locks (harness/lock_driver.cpp: no scheduler, the default lock macros): at
-\* every reported access to the live list the list lock is held in the mode the access needs -
-\* a conflicting try-lock taken from another thread failed - and it is free between operations.
+\* the reported accesses to the live list other threads that need the list exclusively are kept
+\* out (a helper thread creating a sandbox of its own did not get through while the reporting
+\* thread was inside its guarded scope), and nothing is locked between operations.
 ProbeAllowed(ev) ==
   CASE ev.e = "lockprobe" -> ev.held
     [] ev.e = "lockfree" -> ev.free
